@@ -9,7 +9,18 @@ using namespace hx;
 namespace {
 
 constexpr int MAXN = 2, MAXHND = 48;
+// names are drawn per run from a pool: short, differing in one character, and long names that share a long prefix
+const char *name_pool[] = {"vp-shm-alpha", "vp-shm-beta", "a", "b", "vp-shm-alphb",
+                           "vp/shm/an-application-with-a-rather-long-common-prefix/segment-number-00000001",
+                           "vp/shm/an-application-with-a-rather-long-common-prefix/segment-number-00000002",
+                           "vp/shm/an-application-with-a-rather-long-common-prefix/segment-number-00000001 "};
 const char *user_names[MAXN] = {"vp-shm-alpha", "vp-shm-beta"};
+void pick_names() {
+  uint32_t a = gen(8), b = gen(7);
+  if (b >= a) b++;
+  user_names[0] = name_pool[a]; user_names[1] = name_pool[b];
+  if (strlen(user_names[0]) > 50 && strlen(user_names[1]) > 50) sim::probe("ipc.long_names_common_prefix");
+}
 
 struct Epoch {
   int name; int kobj; size_t size;              // size = what the creator asked for
@@ -18,7 +29,7 @@ struct Epoch {
   std::map<size_t, size_t> reported;            // size argument -> reported size (must be a function)
   bool uncertain = false;                       // a killed process was using it
 };
-struct Hnd { PShm *h = nullptr; int name = 0, epoch = -1, proc = 0, task = -1, lock_obj = -1; bool owner = false, live = false, ro = false, locked = false; size_t size = 0; uint8_t *addr = nullptr; };
+struct Hnd { PShm *h = nullptr; int name = 0, epoch = -1, proc = 0, task = -1, lock_obj = -1; bool adopted_empty = false; bool owner = false, live = false, ro = false, locked = false; size_t size = 0; uint8_t *addr = nullptr; };
 
 struct St {
   std::deque<Epoch> epochs;
@@ -73,7 +84,7 @@ void sweep(Hnd &H) {
   (void)acc;
 }
 
-int do_new(int name, size_t size, bool ro, bool use_token = true) {
+int do_new(int name, size_t size, bool ro, bool use_token = true, bool same_size = true) {
   if (S->nh >= MAXHND) return -1;
   if (use_token) { token_take(); sync_if_killed(); }
   bool was_bound = S->bound[name] != -1;
@@ -125,10 +136,12 @@ int do_new(int name, size_t size, bool ro, bool use_token = true) {
     ei = -1;
     for (size_t e = 0; e < S->epochs.size(); e++) if (S->epochs[e].kobj == kobj) ei = (int)e;
     if (ei < 0) { Epoch e; e.name = name; e.kobj = kobj; e.size = size; e.bytes.assign(size, 0); S->epochs.push_back(e); ei = (int)S->epochs.size() - 1; S->bound[name] = ei; S->latest[name] = ei; }
-    if (rep != size) violate("creator_wrong_size", "p_shm_new", "all creators asked for %zu bytes, one sees %zu", size, rep);
+    if (same_size && rep != size) violate("creator_wrong_size", "p_shm_new", "all creators asked for %zu bytes, one sees %zu", size, rep);
+    if (rep > size) violate("reported_size_too_big", "p_shm_new", "asked for %zu bytes, p_shm_get_size reports %zu", size, rep);
   }
   Hnd &H = S->hs[S->nh];
   H.lock_obj = kern::last_sem_obj();
+  H.adopted_empty = !kern::last_shm_created() && kern::last_fstat_size() == 0;   // the library handed out a handle for a segment whose size it had read as 0
   H.h = h; H.name = name; H.epoch = ei; H.proc = proc; H.task = cur()->id; H.owner = use_token ? !was_bound : kern::last_shm_created(); H.live = true; H.ro = ro; H.size = rep; H.addr = addr; H.locked = false;
   int idx = S->nh++;
   if (kern::mapping_count(proc) != live_handles_in(proc))
@@ -253,13 +266,16 @@ bool on_quiescence() {
 // 2-3 processes open a fresh name at the same time, then all increment a plain counter in the segment under the lock
 void concurrent_creators() {
   int np = (int)gen_range(2, 3);
-  size_t size = 64;
+  static const size_t csz[] = {64, 64, 4096, 100000, 5000};
+  size_t size = csz[gen(5)];
+  bool same_size = gen(2);            // all creators ask for the same size, or each for its own
   int rounds = (int)gen_range(1, 3);
   describe("mode=concurrent_first_time_creators procs=%d rounds=%d", np, rounds);
   int *done = new int(0);
   int np_all = np;
-  for (int p = 1; p <= np; p++) spawn(p, [rounds, size, done, np_all]() {
-    int hi = do_new(0, size, false, false);
+  for (int p = 1; p <= np; p++) spawn(p, [rounds, size, done, np_all, same_size, p]() {
+    size_t my_size = same_size ? size : (p == 1 ? 300 : size * (size_t)p);
+    int hi = do_new(0, my_size, false, false, same_size);
     Hnd &H = S->hs[hi];
     Epoch &e = S->epochs[H.epoch];
     // wait until every creator has its handle, then all of them must be on one segment and one lock object
@@ -268,7 +284,7 @@ void concurrent_creators() {
     for (int i = 0; i < ntasks(); i++) { Task *t = task(i); if (t->state == T_BLOCKED && t->bkind == B_BARRIER) wake(t); }
     for (int h = 0; h < S->nh; h++) if (S->hs[h].live) {
       if (S->hs[h].epoch != H.epoch) violate("creators_not_on_one_segment", "concurrent_first_time_creators", "processes opening one fresh name concurrently ended up on different segments");
-      if (S->hs[h].lock_obj != H.lock_obj) violate("creators_on_different_locks", "concurrent_first_time_creators", "processes opening one fresh name concurrently ended up with different lock semaphores: p_shm_lock does not exclude them");
+      if (S->hs[h].lock_obj != H.lock_obj) violate("creators_on_different_locks", (S->hs[h].adopted_empty || H.adopted_empty) ? "concurrent_first_time_creators,handle_on_segment_found_empty" : "concurrent_first_time_creators", "processes opening one fresh name concurrently ended up with different lock semaphores: p_shm_lock does not exclude them");
     }
     for (int r = 0; r < rounds; r++) {
       PError *err = nullptr;
@@ -349,6 +365,7 @@ void root() {
   hooks().completion_required = true;
   hooks().on_quiescence = on_quiescence;
   lib_begin();
+  pick_names();
   int tier = cfg().tier;
   // learn which system keys each name maps to by observing one throw-away create (the harness never hashes names itself)
   for (int n = 0; n < MAXN; n++) {
@@ -359,6 +376,7 @@ void root() {
     if (kern::shm_name_bound(S->shm_key[n].c_str()) || kern::sem_name_bound(S->sem_key[n].c_str())) violate("owner_free_left_name", "p_shm_free", "creator freed its handle but the name (or its lock) still exists");
     if (kern::mapping_count(0)) violate("mapping_residue", "p_shm_free", "mapping left after free");
   }
+  if (S->shm_key[0] == S->shm_key[1] || S->sem_key[0] == S->sem_key[1]) violate("names_collide", "p_shm_new", "the distinct names '%s' and '%s' map to one system-wide segment or lock", user_names[0], user_names[1]);
   if (gen(24) == 1) {
     concurrent_creators();
     wind_down_and_recover(3, false);
